@@ -1,4 +1,5 @@
 import QipVerif.Lemmas.QasmExportSem
+import QipVerif.Lemmas.QasmMat
 /-!
 # C10 — exported OpenQASM is valid OpenQASM 2.0 and denotes the same circuit
 
@@ -14,7 +15,7 @@ the same meaning") does not hold for the code: a measurement is exported without
 recorded findings; `export_valid_partial` states the property on the remaining class.
 -/
 namespace QipVerif.C10
-open QipVerif.Qasm QipVerif.Qasm.Export
+open QipVerif.Qasm QipVerif.Qasm.Export Matrix
 
 /-- **Validity and meaning of the exported text (partial: class `GoodCircuit`).**
 For every circuit — any number of qubits, any length — whose operations are exportable gates
@@ -68,6 +69,39 @@ example : ∃ e, exportCircuit ⟨2, 0, [.gate ⟨cs!"X", some [0], none, .none,
 /-- A classically controlled gate is refused as well. -/
 theorem export_refuses_classical :
     exportCircuit ⟨1, 1, [.gate ⟨cs!"X", some [0], none, .none, some [0]⟩]⟩ = .error .notImpl := rfl
+
+/-! ### The auxiliary gate definitions the exporter emits -/
+
+/-- **Definitions are sound.** The exporter emits a definition for exactly six library gates
+(`_qasm_defns`, table regenerated from the source).  Each definition line is parsed by the strict
+recogniser, expanded by the standard down to `U`/`CX` over `qelib1.inc`, and the resulting
+matrix equals the documented matrix of the library gate up to ONE global phase — for every
+value of the parameter (2×2 / 4×4 identities over ℂ; control = first qubit). -/
+theorem definitions_sound :
+    Gen.qasmDefns.map (·.1) = [cs!"CRY", cs!"CRX", cs!"SQRTNOT", cs!"CS", cs!"CT", cs!"SWAP"] ∧
+    (∀ θ : ℝ, ∃ d ps, exportDef cs!"CRY" = some d ∧ expandDef (d :: qelib1.reverse) d.name = .ok ps ∧
+      PhaseEq (den2 (envOf [(cs!"theta", θ)]) ps) (ctrl (RYm θ))) ∧
+    (∀ θ : ℝ, ∃ d ps, exportDef cs!"CRX" = some d ∧ expandDef (d :: qelib1.reverse) d.name = .ok ps ∧
+      PhaseEq (den2 (envOf [(cs!"theta", θ)]) ps) (ctrl (RXm θ))) ∧
+    (∃ d ps, exportDef cs!"SQRTNOT" = some d ∧ expandDef (d :: qelib1.reverse) d.name = .ok ps ∧
+      PhaseEq (den1 (envOf []) ps) SQRTNOTm) ∧
+    (∃ d ps, exportDef cs!"CS" = some d ∧ expandDef (d :: qelib1.reverse) d.name = .ok ps ∧
+      PhaseEq (den2 (envOf []) ps) (ctrl Sm)) ∧
+    (∃ d ps, exportDef cs!"CT" = some d ∧ expandDef (d :: qelib1.reverse) d.name = .ok ps ∧
+      PhaseEq (den2 (envOf []) ps) (ctrl Tm)) ∧
+    (∃ d ps, exportDef cs!"SWAP" = some d ∧ expandDef (d :: qelib1.reverse) d.name = .ok ps ∧
+      PhaseEq (den2 (envOf []) ps) SWAPm) :=
+  ⟨by decide, defn_sound_CRY, defn_sound_CRX, defn_sound_SQRTNOT, defn_sound_CS, defn_sound_CT, defn_sound_SWAP⟩
+
+/-- the definition used by `definitions_sound` is the one the static semantics puts into the
+environment in `export_valid_partial` -/
+theorem exportDef_eq_defOf : exportDef = defOf := rfl
+
+/-- The gates without a definition are exported under their `qelib1.inc` names
+(`_GATE_NAME_TO_QASM_NAME`); their meaning under the standard is C04's `shortcut_sound`. -/
+theorem base_names_are_qelib1 :
+    ∀ e ∈ Gen.gateNameToQasm, e.2 = cs!"U" ∨ (qelib1.find? (fun d => d.name == e.2)).isSome = true := by
+  decide
 
 /-! ### Counter-examples to the unrestricted statement (recorded findings) -/
 
